@@ -478,12 +478,14 @@ fn garbage<W: Write>(out: &mut Out<W>, rng: &mut Rng, n: u64) {
             // expression soup inside one rule, mostly well-formed
             _ => {
                 s.push_str("a = { ");
-                let atoms = ["\"x\"", "b", "ANY", "'a'..'z'", "^\"y\"", "(\"x\" | b)", "PUSH(b)", "PEEK[1..]", "POP", "\"\"", "(b)", "( | b)", "\"\\u{D800}\"", "PEEK[99999999999..]", "é"];
+                // groups with repetition sugar BELOW their top node (what a traversal that stops one level down never rewrites)
+                let atoms = ["\"x\"", "b", "ANY", "'a'..'z'", "^\"y\"", "(\"x\" | b)", "PUSH(b)", "PEEK[1..]", "POP", "\"\"", "(b)", "( | b)", "\"\\u{D800}\"", "PEEK[99999999999..]", "é",
+                             "(\"x\"{2} ~ b)", "(b+ ~ \"x\")", "(\"x\" | b{1,2})", "PUSH(b+ ~ \"x\")", "((b{2,}) ~ (\"x\" | b{,2}))", "(!(b{2}) ~ ANY)", "PUSH((\"x\" ~ b{3})?)"];
                 let post = ["", "", "", "?", "*", "+", "{2}", "{1,}", "{,2}", "{1,3}", "{0}", "{4294967296}"];
                 for k in 0..rng.range(1, 8) {
                     if k > 0 { s.push_str([" ~ ", " | ", " "][rng.weighted(&[6, 5, 1])]); }
                     if rng.chance(1, 6) { s.push_str(["!", "&", "#t = "][rng.below(3) as usize]); }
-                    s.push_str(atoms[rng.weighted(&[8, 6, 3, 3, 2, 3, 2, 2, 1, 1, 1, 1, 1, 1, 1])]);
+                    s.push_str(atoms[rng.weighted(&[8, 6, 3, 3, 2, 3, 2, 2, 1, 1, 1, 1, 1, 1, 1, 2, 2, 2, 2, 1, 1, 1])]);
                     s.push_str(pk(rng, &post));
                 }
                 s.push_str(" }\nb = { \"y\" }");
@@ -495,7 +497,7 @@ fn garbage<W: Write>(out: &mut Out<W>, rng: &mut Rng, n: u64) {
 
 fn generated<W: Write>(out: &mut Out<W>, rng: &mut Rng, n: u64) {
     for _ in 0..n {
-        let cfg = GenCfg { stack: rng.chance(1, 2), extras: false, counts: true, builtins: true };
+        let cfg = GenCfg { stack: rng.chance(1, 2), extras: cfg!(feature = "extras"), counts: true, builtins: true };
         let g = gen_grammar(rng, &cfg);
         let t = pest_grammar(&g);
         out.run("gen", &t);
